@@ -462,7 +462,7 @@ func main() {
 		res.Write(opts.Out)
 		return
 	}
-	n := 4000
+	n := 3000
 	if opts.Thorough() {
 		n = 40000
 	}
